@@ -354,6 +354,93 @@ func aliasDef(info *types.Info, root ast.Node, e ast.Expr) ast.Expr {
 	if bad {
 		return nil
 	}
+	// Statements between definition and use. An operand may be advanced by `X += E` / `X -= E`
+	// (a sibling statement of the definition, E unchanged afterwards): the alias then equals the
+	// definition with X replaced by X - E / X + E (update compensation).
+	type comp struct {
+		target string
+		op     token.Token
+		e      ast.Expr
+		pos    token.Pos
+	}
+	var comps []comp
+	siblingOfDef := func(st ast.Stmt) bool {
+		ok := false
+		ast.Inspect(root, func(x ast.Node) bool {
+			var list []ast.Stmt
+			switch b := x.(type) {
+			case *ast.BlockStmt:
+				list = b.List
+			case *ast.CaseClause:
+				list = b.Body
+			case *ast.CommClause:
+				list = b.Body
+			}
+			hasDef, hasSt := false, false
+			for _, s := range list {
+				if s == ast.Stmt(def) {
+					hasDef = true
+				}
+				if s == st {
+					hasSt = true
+				}
+			}
+			if hasDef && hasSt {
+				ok = true
+			}
+			return true
+		})
+		return ok
+	}
+	pureOperand := func(e ast.Expr) bool {
+		p := true
+		ast.Inspect(e, func(x ast.Node) bool {
+			if ce, ok := x.(*ast.CallExpr); ok {
+				if nme := calleeName(info, ce); nme != "builtin.len" && nme != "builtin.cap" && !isConversion(info, ce) {
+					p = false
+				}
+			}
+			return true
+		})
+		return p
+	}
+	// a call can re-bind the fields the definition reads only if it can reach the object that owns
+	// them: the owner itself is the receiver or an argument (calls on other values, e.g. the
+	// underlying reader, are assumed not to re-enter - the assumption stated for C04)
+	owners := map[types.Object]bool{}
+	ast.Inspect(rhs, func(x ast.Node) bool {
+		if se, ok := x.(*ast.SelectorExpr); ok && fieldVar(info, se) != nil {
+			if o := identObj(info, se.X); o != nil {
+				owners[o] = true
+			}
+		}
+		return true
+	})
+	callTouchesOwner := func(ce *ast.CallExpr) bool {
+		if se, ok := ce.Fun.(*ast.SelectorExpr); ok && fieldVar(info, se) == nil { // a method of the owner (a callback stored in a field is not)
+			if o := identObj(info, se.X); o != nil && owners[o] {
+				return true
+			}
+		}
+		for _, a := range ce.Args {
+			a = ast.Unparen(a)
+			if ue, ok := a.(*ast.UnaryExpr); ok && ue.Op == token.AND {
+				a = ast.Unparen(ue.X)
+			}
+			if o := identObj(info, a); o != nil && owners[o] {
+				return true
+			}
+		}
+		if _, isLit := ast.Unparen(ce.Fun).(*ast.FuncLit); isLit {
+			return true
+		}
+		if calleeName(info, ce) == "" {
+			if _, isSel := ce.Fun.(*ast.SelectorExpr); !isSel {
+				return true // dynamic call of a local function value: may be a closure over the owner
+			}
+		}
+		return false
+	}
 	ast.Inspect(root, func(x ast.Node) bool {
 		if x == nil || x.Pos() <= def.Pos() || x.Pos() >= id.Pos() {
 			return true
@@ -361,10 +448,16 @@ func aliasDef(info *types.Info, root ast.Node, e ast.Expr) ast.Expr {
 		switch t := x.(type) {
 		case *ast.AssignStmt:
 			for _, l := range t.Lhs {
-				if ops[identObj(info, l)] {
-					bad = true
-				}
+				hit := ops[identObj(info, l)]
 				if fv := fieldVar(info, l); fv != nil && fields[fv.Name()] {
+					hit = true
+				}
+				if !hit {
+					continue
+				}
+				if (t.Tok == token.ADD_ASSIGN || t.Tok == token.SUB_ASSIGN) && len(t.Lhs) == 1 && len(t.Rhs) == 1 && siblingOfDef(t) && pureOperand(t.Rhs[0]) {
+					comps = append(comps, comp{exprStr(l), t.Tok, t.Rhs[0], t.Pos()})
+				} else {
 					bad = true
 				}
 			}
@@ -380,13 +473,84 @@ func aliasDef(info *types.Info, root ast.Node, e ast.Expr) ast.Expr {
 				return true // the use is an operand of this call: evaluated before the call runs
 			}
 			if len(fields) > 0 && !isConversion(info, t) {
-				if nme := calleeName(info, t); nme != "builtin.len" && nme != "builtin.cap" {
-					bad = true // a call may re-bind the fields the definition reads
+				if nme := calleeName(info, t); nme != "builtin.len" && nme != "builtin.cap" && callTouchesOwner(t) {
+					bad = true // a call that can reach the owner may re-bind the fields the definition reads
 				}
 			}
 		}
 		return true
 	})
+	if !bad && len(comps) > 0 {
+		// one compensation per target, and the operands of E are not assigned between the update and the use
+		seen := map[string]bool{}
+		for _, cp := range comps {
+			if seen[cp.target] {
+				bad = true
+			}
+			seen[cp.target] = true
+			eops := map[types.Object]bool{}
+			ast.Inspect(cp.e, func(x ast.Node) bool {
+				if idn, ok := x.(*ast.Ident); ok {
+					if v, ok := info.Uses[idn].(*types.Var); ok {
+						eops[v] = true
+					}
+				}
+				return true
+			})
+			ast.Inspect(root, func(x ast.Node) bool {
+				if x == nil || x.Pos() <= cp.pos || x.Pos() >= id.Pos() {
+					return true
+				}
+				switch t := x.(type) {
+				case *ast.AssignStmt:
+					for _, l := range t.Lhs {
+						if eops[identObj(info, l)] {
+							bad = true
+						}
+					}
+				case *ast.IncDecStmt:
+					if eops[identObj(info, t.X)] {
+						bad = true
+					}
+				}
+				return true
+			})
+		}
+		if !bad {
+			var sub func(e ast.Expr) ast.Expr
+			sub = func(e ast.Expr) ast.Expr {
+				for _, cp := range comps {
+					if exprStr(e) == cp.target {
+						op := token.SUB
+						if cp.op == token.SUB_ASSIGN {
+							op = token.ADD
+						}
+						var y ast.Expr = cp.e
+						if _, isBin := ast.Unparen(y).(*ast.BinaryExpr); isBin {
+							y = &ast.ParenExpr{X: y}
+						}
+						return &ast.ParenExpr{X: &ast.BinaryExpr{X: e, Op: op, Y: y}}
+					}
+				}
+				switch t := e.(type) {
+				case *ast.ParenExpr:
+					return &ast.ParenExpr{X: sub(t.X)}
+				case *ast.BinaryExpr:
+					return &ast.BinaryExpr{X: sub(t.X), Op: t.Op, Y: sub(t.Y)}
+				case *ast.UnaryExpr:
+					return &ast.UnaryExpr{Op: t.Op, X: sub(t.X)}
+				case *ast.CallExpr:
+					args := make([]ast.Expr, len(t.Args))
+					for i, a := range t.Args {
+						args[i] = sub(a)
+					}
+					return &ast.CallExpr{Fun: t.Fun, Args: args}
+				}
+				return e
+			}
+			return sub(rhs)
+		}
+	}
 	if bad {
 		return nil
 	}
